@@ -591,6 +591,16 @@ def rule_bl(ctx):
            'under drop_last, and only then')
     # window start and size
     ok_win = False
+    # the index: the parameter, or a local that starts as a copy of it (and is then normalised in place)
+    idx_names = {g.args.args[1].arg}
+    grew = True
+    while grew:
+        grew = False
+        for n in A.walk_local(g):
+            if isinstance(n, ast.Assign) and len(n.targets) == 1 and isinstance(n.targets[0], ast.Name) \
+                    and isinstance(n.value, ast.Name) and n.value.id in idx_names and n.targets[0].id not in idx_names:
+                idx_names.add(n.targets[0].id)
+                grew = True
     for n in A.walk_local(g):
         if isinstance(n, ast.For) and isinstance(n.iter, ast.Call) and A.dotted(n.iter.func) == 'range' \
                 and len(n.iter.args) == 1 and A.is_self_attr(n.iter.args[0], 'batch_size') \
@@ -603,7 +613,9 @@ def rule_bl(ctx):
                         sides = [flow.copy_prop(e.left, g), flow.copy_prop(e.right, g)]
                         has_i = any(A.is_name(x, iv) for x in [e.left, e.right])
                         has_start = any(isinstance(x, ast.BinOp) and isinstance(x.op, ast.Mult) and
-                                        {A.src(x.left), A.src(x.right)} == {'item', 'self.batch_size'} for x in sides)
+                                        ((isinstance(x.left, ast.Name) and x.left.id in idx_names and A.is_self_attr(x.right, 'batch_size'))
+                                         or (isinstance(x.right, ast.Name) and x.right.id in idx_names and A.is_self_attr(x.left, 'batch_size')))
+                                        for x in sides)
                         ok_win = has_i and has_start
     rep.ob('BL', K.key(cls, '__getitem__', 'window=item*batch_size+range(batch_size)'), ok_win, g,
            '' if ok_win else 'batch i must consist of input[i*batch_size + k] for k in range(batch_size)')
